@@ -56,7 +56,7 @@ StoreValid == StoredValuesValid(st)
 \* refinement: the finished store shows only values the declarative rule book allows
 RefinesPrecedence == (ph = 6 /\ ok) => \A i \in 1..Len(c.q) : Get(st, QKey(c.q[i])) \in Allowed(c, c.q[i])
 \* the only freedom the rule book leaves is the buildtype-vs-lower-priority-explicit one
-RuleBookIsTight == \A i \in 1..Len(c.q) : Cardinality(Allowed(c, c.q[i])) = 1 \/ (c.fam = "bt" /\ c.q[i].name \in BtNames)
+RuleBookIsTight == ~AnyInvalidGiven(c) => \A i \in 1..Len(c.q) : Cardinality(Allowed(c, c.q[i])) = 1 \/ (c.fam = "bt" /\ c.q[i].name \in BtNames)
 Rejection == /\ (WinnerInvalid(c) /\ (ph = 6 \/ ~ok)) => ~ok
              /\ ~AnyInvalidGiven(c) => ok
 \* a yielding subproject option shows the parent's value unless it was given for the subproject
